@@ -84,6 +84,9 @@ def history(v, obs):
     for c in h[0]["changed"]:
         v.violation("decoding is not a function of the bytes: after a history of rejected inputs (too deeply nested terms, truncations, oversized counts) on the same thread "
                     "a valid encoding decodes differently than before", c)
+    if h[0]["concurrent_failures"]:
+        v.violation("decoding depends on what other threads decode at the same time: a 100-level term that decodes on its own failed while seven other threads decoded the same term",
+                    {"threads": 8, "decodes_per_thread": 300, "failed": h[0]["concurrent_failures"]})
     v.cov["vectors_decoded_again_after_rejected_inputs"] = h[0]["vectors"]
     return [o for o in obs if o["id"] != "__history__"]
 
